@@ -33,7 +33,7 @@ theorem round_subsecs_lit (frac K : Int) (d : Nat) (hK : span_for_digits d = K) 
   have hk0 : K ≠ 0 := by omega
   have hkp : 0 < K := by omega
   rw [roundSpec_eq frac K hkp]
-  simp only [remU32_ok frac K h0 hk0, shift_eq, tieUp_eq]
+  simp only [remU32_ok frac K h0 hk0, shift_eq, tieUpSubsec_eq]
   unfold fieldOf leapBase apply_within
   by_cases hr : frac % K > 0
   · have hb := emod_bounds frac K hkp
